@@ -8,6 +8,7 @@ import (
 	"io"
 	"math/rand"
 	"net/http"
+	"os"
 	"runtime"
 	"sort"
 	"strconv"
@@ -68,7 +69,6 @@ type c13State struct {
 	maxIn     int64
 	mu        sync.Mutex
 	kept      []*retained
-	yieldHits sync.Map // point -> *int64
 }
 
 type c13Client struct {
@@ -118,15 +118,10 @@ func c13(run *ev.Run) int {
 	st := &c13State{run: run}
 	connect.VerifSetPoolReport(func(kind string) { run.Violation("c13/pool/"+kind, "buffer pool discipline violated: "+kind, nil) })
 	defer connect.VerifSetPoolReport(nil)
-	yr := rand.New(rand.NewSource(run.Seed))
-	var ymu sync.Mutex
+	// The hook must not touch shared state: any mutex or atomic here would add
+	// happens-before edges between goroutines and hide races from the detector.
 	connect.VerifSetYield(func(point string) {
-		v, _ := st.yieldHits.LoadOrStore(point, new(int64))
-		atomic.AddInt64(v.(*int64), 1)
-		ymu.Lock()
-		x := yr.Intn(512)
-		ymu.Unlock()
-		switch {
+		switch x := time.Now().UnixNano() % 509; {
 		case x == 0:
 			time.Sleep(200 * time.Microsecond)
 		case x < 16:
@@ -137,7 +132,6 @@ func c13(run *ev.Run) int {
 	g0, _, r0, _ := connect.VerifPoolStats()
 	st.srv = svc.NewServer()
 	defer st.srv.Close()
-	st.srv.Tap1.Keep, st.srv.Tap2.Keep = false, false
 	for _, p := range svc.Protocols {
 		for _, c := range svc.Codecs {
 			for _, gz := range []bool{false, true} {
@@ -148,7 +142,7 @@ func c13(run *ev.Run) int {
 					} else {
 						opts = append(opts, connect.WithCompressMinBytes(4096))
 					}
-					st.clients = append(st.clients, &c13Client{name: fmt.Sprintf("%s/%s/gz=%v/h2=%v", p, c, gz, h2), proto: p, http2: h2, cs: st.srv.Clients(h2, opts...)})
+					st.clients = append(st.clients, &c13Client{name: fmt.Sprintf("%s/%s/gz=%v/h2=%v", p, c, gz, h2), proto: p, http2: h2, cs: st.srv.RawClients(h2, opts...)})
 				}
 			}
 		}
@@ -160,7 +154,7 @@ func c13(run *ev.Run) int {
 		for _, procs := range []int{16, 4, 1} {
 			old := runtime.GOMAXPROCS(procs)
 			var wg sync.WaitGroup
-			for g := 0; g < G; g++ {
+			for g := 0; g < G && os.Getenv("VERIF_C13_ONLY") != "cancel"; g++ {
 				wg.Add(1)
 				go func(g int) {
 					defer wg.Done()
@@ -184,6 +178,20 @@ func c13(run *ev.Run) int {
 				}(b)
 			}
 			wg.Wait()
+			// Cancelled duplex streams get the machine to themselves: under the
+			// heavy mixed load above the cancel usually lands before the response
+			// has started, which exercises nothing.
+			for round := 0; round < run.Pick(12, 40); round++ {
+				for x := 0; x < 12; x++ {
+					wg.Add(1)
+					go func(b int) {
+						defer wg.Done()
+						id := atomic.AddUint64(&nextID, 1) + 1<<42
+						st.duplexCancel(id, procs, b)
+					}(x)
+				}
+				wg.Wait()
+			}
 			runtime.GOMAXPROCS(old)
 		}
 	}
@@ -194,11 +202,7 @@ func c13(run *ev.Run) int {
 	run.Count("pool.recycled_gets", int64(r1-r0))
 	run.Count("pool.double_puts", int64(dp))
 	run.Set("max_calls_in_flight", atomic.LoadInt64(&st.maxIn))
-	hits := map[string]int64{}
-	st.yieldHits.Range(func(k, v any) bool { hits[k.(string)] = atomic.LoadInt64(v.(*int64)); return true })
-	run.Set("yield_point_hits", hits)
-	run.Count("yield.points.distinct", int64(len(hits)))
-	return run.Finish("calls", "echo.checked", "retained.rechecked", "pool.recycled_gets", "duplex.messages", "yield.points.distinct")
+	return run.Finish("calls", "echo.checked", "retained.rechecked", "pool.recycled_gets", "duplex.messages", "duplex.cancelled_streams")
 }
 
 func sizeClass(n int) string {
@@ -277,7 +281,6 @@ func (s *c13State) oneCall(r *rand.Rand, id uint64, procs int) {
 	atomic.AddInt64(&s.inflight, -1)
 	atomic.AddInt64(&s.done, 1)
 	s.srv.Reg.Drop(call)
-	c.cs.Tap.Forget(call.ID)
 	run.Count("calls", 1)
 	outcome := "ok"
 	if fail {
@@ -503,7 +506,6 @@ func (s *c13State) duplexStream(id uint64, procs, b int) {
 	prog.Steps = append(prog.Steps, svc.Step{Op: "recvall"})
 	call := s.srv.Reg.New("c13d", prog)
 	defer s.srv.Reg.Drop(call)
-	defer c.cs.Tap.Forget(call.ID)
 	st := c.cs.C[svc.Bidi].CallBidiStream(context.Background())
 	st.RequestHeader().Set(wire.CallHeader, call.ID)
 	key := fmt.Sprintf("c13/duplex/%s", c.name)
@@ -563,4 +565,86 @@ func (s *c13State) duplexStream(id uint64, procs, b int) {
 		}
 	}
 	_ = strings.TrimSpace
+}
+
+// duplexCancel: a bidi stream whose context is cancelled while the sender and
+// the receiver goroutine are both active (the documented concurrency contract
+// plus cancellation). Only termination and coded errors are judged here; the
+// point is to let the race detector watch Send/Receive/cancel overlap.
+func (s *c13State) duplexCancel(id uint64, procs, b int) {
+	run := s.run
+	var h2 []*c13Client
+	for _, c := range s.clients {
+		if c.http2 {
+			h2 = append(h2, c)
+		}
+	}
+	c := h2[int(id)%len(h2)]
+	// the handler streams its replies without waiting, so that the receiver
+	// goroutine is busy in a tight Receive loop when the sender cancels
+	n := 400
+	prog := &svc.Program{Steps: []svc.Step{{Op: "recv"}}, StopOnSendErr: true}
+	reply := gen.New(id*1024+512, 64, true)
+	for i := 0; i < 6000; i++ { // far more than the receiver can drain before the cancel
+		prog.Steps = append(prog.Steps, svc.Step{Op: "send", Msg: reply})
+	}
+	prog.Steps = append(prog.Steps, svc.Step{Op: "recvall"})
+	call := s.srv.Reg.New("c13x", prog)
+	defer s.srv.Reg.Drop(call)
+	ctx, cancel := context.WithCancel(context.Background())
+	defer cancel()
+	st := c.cs.C[svc.Bidi].CallBidiStream(ctx)
+	st.RequestHeader().Set(wire.CallHeader, call.ID)
+	cancelAt := 1 + int(id%7)
+	var sendErr, recvErr error
+	var received int64
+	small := &gen.Msg{Id: id} // prebuilt: the Send right after cancel() must not be delayed
+	sent := make(chan struct{})
+	go func() {
+		defer close(sent)
+		for i := 0; i < n; i++ {
+			if i == cancelAt {
+				// Cancel at an arbitrary phase of the receiver's loop. (Waiting on a
+				// shared counter instead would synchronise the two goroutines and
+				// always find the receiver parked inside the body read.)
+				time.Sleep(time.Duration(3000+(id*7919)%57000) * time.Microsecond)
+				cancel()
+			}
+			if err := st.Send(small); err != nil {
+				sendErr = err
+				break
+			}
+		}
+		_ = st.CloseRequest()
+	}()
+	ok, dump := watchdog(120*time.Second, func() {
+		for {
+			if _, err := st.Receive(); err != nil {
+				recvErr = err
+				break
+			}
+			atomic.AddInt64(&received, 1)
+		}
+		<-sent
+		_ = st.CloseResponse()
+	})
+	run.Count("calls", 1)
+	run.Count("duplex.cancelled_streams", 1)
+	run.Count("duplex.cancelled_streams.received_before_cancel", atomic.LoadInt64(&received))
+	run.Eval(fmt.Sprintf("duplex-cancel|%s|procs=%d", c.name, procs))
+	key := fmt.Sprintf("c13/duplex-cancel/%s", c.name)
+	if !ok {
+		run.Violation(key+"/hang", "bidi stream cancelled while sending and receiving concurrently hung", trunc(dump, 30000))
+		return
+	}
+	for _, e := range []error{sendErr, recvErr} {
+		if e == nil || errors.Is(e, io.EOF) {
+			continue
+		}
+		var ce *connect.Error
+		if !errors.As(e, &ce) || ce.Code() == 0 {
+			run.Violation(key+"/uncoded", "operation on a cancelled duplex stream returned an uncoded error: "+e.Error(), nil)
+			return
+		}
+	}
 }
